@@ -7,6 +7,8 @@ import (
 	"os"
 	"runtime"
 	"time"
+
+	"github.com/rqlite/rqlite/v10/internal/verifhook"
 )
 
 const (
@@ -124,7 +126,13 @@ func WriteToFile(p *Plan, path string) error {
 	if err := os.WriteFile(tmpPath, data, 0644); err != nil {
 		return err
 	}
+	if err := verifhook.Hit("plan.write.after-tmp-write"); err != nil {
+		return err
+	}
 	if err := syncFileMaybe(tmpPath); err != nil {
+		return err
+	}
+	if err := verifhook.Hit("plan.write.after-tmp-sync"); err != nil {
 		return err
 	}
 	return os.Rename(tmpPath, path)
@@ -249,7 +257,11 @@ type Inspector interface {
 // Execute traverses the plan, calling the appropriate method on the visitor for each operation.
 // It stops and returns the first error encountered.
 func (p *Plan) Execute(v Visitor) error {
+	verifhook.Note("plan.execute.begin", int64(len(p.Ops)))
 	for _, op := range p.Ops {
+		if err := verifhook.Hit("plan.execute.before-op"); err != nil {
+			return err
+		}
 		var err error
 		switch op.Type {
 		case OpRename:
@@ -274,6 +286,9 @@ func (p *Plan) Execute(v Visitor) error {
 			err = fmt.Errorf("unknown operation type: %s", op.Type)
 		}
 		if err != nil {
+			return err
+		}
+		if err := verifhook.Hit("plan.execute.after-op"); err != nil {
 			return err
 		}
 	}
